@@ -59,6 +59,11 @@ structure GInfo where
     genesis info always has a non-nil initial supply -/
 def emptyGI : GInfo := { checksum := 0, pfx := 0, denom := ⟨0, 0, 0⟩, supply := some 0, accounts := [], sealed := false }
 
+/-- `maxAllowedGenesisAccounts` (x/rollapp/types/genesis_info.go) -/
+def maxGenesisAccounts : Nat := 100
+/-- `MinTokenAllocation` (x/iro/types/plan.go), in whole tokens of 18 decimals -/
+def minTokenAllocation : Nat := 10
+
 inductive GErr
   | badPrefix | badChecksum | noNative | badMetadata | badSupply | tooMany | invalidArg
   deriving DecidableEq, Repr, Inhabited
@@ -87,7 +92,7 @@ def GInfo.vb (g : GInfo) : Option GErr :=
   else if !g.denom.valid then some .badMetadata
   else if (match g.supply with | some s => decide (s < 0) | none => false) then some .badSupply
   else if decide (0 < g.accounts.length) then
-    if decide (100 < g.accounts.length) then some .tooMany
+    if decide (maxGenesisAccounts < g.accounts.length) then some .tooMany
     else match g.supply with
       | none => some .badSupply
       | some s =>
@@ -332,7 +337,7 @@ def stepPlan (s : St) (r : Nat) (owner : Bool) (alloc : Int) (dur : Nat) : St ×
   | none => (s, .err)
   | some ra =>
     if !owner then (s, .err)
-    else if decide (alloc ≤ 10 * 10 ^ 18) then (s, .err)       -- MinTokenAllocation (18 decimals)
+    else if decide (alloc ≤ minTokenAllocation * 10 ^ 18) then (s, .err)       -- MinTokenAllocation (18 decimals)
     else if ra.plan.isSome then (s, .err)
     else match ra.gi.accounts.find? (·.addr == iroAddr) with
       | none => (s, .err)
